@@ -4,6 +4,28 @@ import Proofs.C18.Fee
 namespace Btc.C18
 open Btc Btc.Py
 
+/-- `scaled` / `absLe` without the zero short-circuit (which only avoids building 10^huge) -/
+def scaledRaw (k : Nat) (coeff : Nat) (exp : Int) : Option Nat :=
+  let e := exp + k
+  if e ≥ 0 then some (coeff * 10 ^ e.toNat)
+  else
+    let d := 10 ^ (-e).toNat
+    if coeff % d = 0 then some (coeff / d) else none
+def absLeRaw (coeff : Nat) (exp : Int) (m : Nat) : Bool :=
+  if exp ≥ 0 then coeff * 10 ^ exp.toNat ≤ m else coeff ≤ m * 10 ^ (-exp).toNat
+
+theorem scaled_eq_raw (k c : Nat) (e : Int) : scaled k c e = scaledRaw k c e := by
+  unfold scaled scaledRaw
+  by_cases hc : c = 0
+  · subst hc; simp
+  · simp [hc]
+
+theorem absLe_eq_raw (c : Nat) (e : Int) (m : Nat) : absLe c e m = absLeRaw c e m := by
+  unfold absLe absLeRaw
+  by_cases hc : c = 0
+  · subst hc; simp
+  · simp [hc]
+
 theorem stripZeros_spec (fuel : Nat) : ∀ (c : Nat) (e : Int), c ≠ 0 →
     ∃ k : Nat, c = (stripZeros fuel c e).1 * 10 ^ k ∧ (stripZeros fuel c e).2 = e + k := by
   induction fuel with
@@ -37,7 +59,7 @@ theorem scaled_normalize (k n : Nat) :
     scaled k (normalize n (-(k : Int))).1 (normalize n (-(k : Int))).2 = some n := by
   rcases normalize_spec n (-(k : Int)) with ⟨h0, hn⟩ | ⟨_, j, h1, h2⟩
   · subst h0; rw [hn]; simp [scaled]
-  · unfold scaled
+  · rw [scaled_eq_raw]; unfold scaledRaw
     rw [h2]
     have : (-(k : Int) + (j : Int) + (k : Int)) = (j : Int) := by omega
     simp only [this]
@@ -50,7 +72,7 @@ theorem absLe_normalize (k n m : Nat) (h : n ≤ m * 10 ^ k) :
     absLe (normalize n (-(k : Int))).1 (normalize n (-(k : Int))).2 m = true := by
   rcases normalize_spec n (-(k : Int)) with ⟨h0, hn⟩ | ⟨_, j, h1, h2⟩
   · rw [hn]; simp [absLe]
-  · unfold absLe
+  · rw [absLe_eq_raw]; unfold absLeRaw
     rw [h2]
     generalize (normalize n (-(k : Int))).1 = c at h1
     have p10 : ∀ a : Nat, 0 < 10 ^ a := fun a => Nat.pow_pos (by omega)
@@ -75,7 +97,7 @@ theorem absLe_normalize (k n m : Nat) (h : n ≤ m * 10 ^ k) :
 /-- what `scaled` says: value·10^k = n, exactly -/
 theorem scaled_some (k c : Nat) (e : Int) (n : Nat) (h : scaled k c e = some n) :
     (0 ≤ e + k ∧ n = c * 10 ^ (e + k).toNat) ∨ (e + k < 0 ∧ c = n * 10 ^ (-(e + k)).toNat) := by
-  unfold scaled at h
+  rw [scaled_eq_raw] at h; unfold scaledRaw at h
   by_cases he : e + (k : Int) ≥ 0
   · simp only [he, if_true] at h
     exact Or.inl ⟨he, by cases h; rfl⟩
@@ -93,7 +115,7 @@ theorem scaled_some (k c : Nat) (e : Int) (n : Nat) (h : scaled k c e = some n) 
 theorem scaled_le (k c : Nat) (e : Int) (n m : Nat) (hs : scaled k c e = some n)
     (ha : absLe c e m = true) : n ≤ m * 10 ^ k := by
   have p10 : ∀ a : Nat, 0 < 10 ^ a := fun a => Nat.pow_pos (by omega)
-  unfold absLe at ha
+  rw [absLe_eq_raw] at ha; unfold absLeRaw at ha
   rcases scaled_some k c e n hs with ⟨h0, hn⟩ | ⟨h0, hc⟩
   · by_cases he : e ≥ 0
     · simp only [he, if_true, decide_eq_true_eq] at ha
@@ -126,5 +148,77 @@ theorem scaled_le (k c : Nat) (e : Int) (n m : Nat) (hs : scaled k c e = some n)
     have : n * 10 ^ d ≤ m * 10 ^ k * 10 ^ d := by
       rw [← hc, Nat.mul_assoc, ← Nat.pow_add, ← hd]; exact ha
     exact Nat.le_of_mul_le_mul_right this (p10 d)
+
+theorem decDigitsAux_le (fuel : Nat) : ∀ (n m : Nat), n < 10 ^ m → decDigitsAux fuel n ≤ m := by
+  induction fuel with
+  | zero => intro n m _; simp [decDigitsAux]
+  | succ f ih =>
+    intro n m h
+    unfold decDigitsAux
+    split
+    · omega
+    · cases m with
+      | zero => simp at h; omega
+      | succ m =>
+        have : n / 10 < 10 ^ m := by rw [Nat.pow_succ] at h; omega
+        have := ih (n / 10) m this
+        omega
+
+theorem decDigitsAux_ge (fuel : Nat) : ∀ (n m : Nat), n ≤ fuel → 10 ^ m ≤ n → m + 1 ≤ decDigitsAux fuel n := by
+  induction fuel with
+  | zero =>
+    intro n m h1 h2
+    have : 0 < 10 ^ m := Nat.pow_pos (by omega)
+    omega
+  | succ f ih =>
+    intro n m h1 h2
+    have hp : 0 < 10 ^ m := Nat.pow_pos (by omega)
+    unfold decDigitsAux
+    have hn : n ≠ 0 := by omega
+    simp only [hn, if_false]
+    cases m with
+    | zero => omega
+    | succ m =>
+      have h3 : 10 ^ m ≤ n / 10 := by rw [Nat.pow_succ] at h2; omega
+      have := ih (n / 10) m (by omega) h3
+      omega
+
+theorem decDigits_le (n m : Nat) (h : n < 10 ^ m) : decDigits n ≤ m := decDigitsAux_le n n m h
+theorem decDigits_ge (n m : Nat) (h : 10 ^ m ≤ n) : m + 1 ≤ decDigits n :=
+  decDigitsAux_ge n n m (Nat.le_refl n) h
+
+/-- where the leading digit of the normalised k·10^-3 sits: at most 10^15 exactly when k < 10^19 -/
+theorem adjusted_satsPerVbyte (k : Nat) (hk : k ≠ 0) :
+    (normalize k (-3)).1 ≠ 0 ∧ -3 ≤ adjusted (normalize k (-3)).1 (normalize k (-3)).2 ∧
+    (k < 10 ^ 19 → adjusted (normalize k (-3)).1 (normalize k (-3)).2 ≤ 15) ∧
+    (10 ^ 19 ≤ k → adjusted (normalize k (-3)).1 (normalize k (-3)).2 > 15) := by
+  have p10 : ∀ a : Nat, 0 < 10 ^ a := fun a => Nat.pow_pos (by omega)
+  rcases normalize_spec k (-3) with ⟨h0, _⟩ | ⟨_, j, h1, h2⟩
+  · exact absurd h0 hk
+  · generalize (normalize k (-3)).1 = c at *
+    generalize (normalize k (-3)).2 = e at *
+    have hc : c ≠ 0 := by
+      intro h; subst h; simp at h1; exact hk h1
+    have hd1 : 1 ≤ decDigits c := decDigits_ge c 0 (by simp; omega)
+    unfold adjusted
+    refine ⟨hc, by omega, ?_, ?_⟩
+    · intro hlt
+      by_cases hj : j ≤ 19
+      · obtain ⟨d, hd⟩ : ∃ d : Nat, 19 = d + j := ⟨19 - j, by omega⟩
+        have : c * 10 ^ j < 10 ^ d * 10 ^ j := by rw [← Nat.pow_add, ← hd, ← h1]; exact hlt
+        have hcd : c < 10 ^ d := Nat.lt_of_mul_lt_mul_right this
+        have := decDigits_le c d hcd
+        omega
+      · have h19 : (10 : Nat) ^ 19 ≤ 10 ^ j := Nat.pow_le_pow_right (by omega) (by omega)
+        have : 10 ^ j ≤ c * 10 ^ j := Nat.le_mul_of_pos_left _ (by omega)
+        omega
+    · intro hge
+      by_cases hj : j ≤ 19
+      · obtain ⟨d, hd⟩ : ∃ d : Nat, 19 = d + j := ⟨19 - j, by omega⟩
+        have : 10 ^ d * 10 ^ j ≤ c * 10 ^ j := by rw [← Nat.pow_add, ← hd, ← h1]; exact hge
+        have hcd : 10 ^ d ≤ c := Nat.le_of_mul_le_mul_right this (p10 j)
+        have := decDigits_ge c d hcd
+        omega
+      · omega
 
 end Btc.C18
